@@ -81,6 +81,18 @@ structure ChunkMetaWF (m : ChunkMetaM) : Prop where
 /-- what comes back: an unwritten / empty pre-aggregation block is 48 zero bytes. -/
 def normCM (preAggOn : Bool) (m : ChunkMetaM) : ChunkMetaM := { m with cols := m.cols.map (normCol preAggOn) }
 
+/-- parser lemma on abstract inputs. -/
+theorem unmarshalCMPlain_of (src r0 r1 r2 r3 r4 r5 r6 : Bytes) (sid size cc sc : Nat) (off : W)
+    (trs : List (W × W)) (cols : List ColMetaM)
+    (hlen : ¬ src.length < chunkMetaMinLen)
+    (h0 : readBE 8 src = some (sid, r0)) (h1 : readI64 r0 = some (off, r1))
+    (h2 : readBE 4 r1 = some (size, r2)) (h3 : readBE 4 r2 = some (cc, r3))
+    (h4 : readBE 4 r3 = some (sc, r4)) (h5 : readN unmarshalRange sc r4 = some (trs, r5))
+    (h6 : readN (unmarshalColPlain sc) cc r5 = some (cols, r6)) :
+    unmarshalCMPlain src = some (⟨sid, off, size, cc, sc, trs, cols⟩, r6) := by
+  unfold unmarshalCMPlain
+  simp only [hlen, if_false, h0, h1, h2, h3, h4, h5, h6]
+
 /-- **chunk meta (plain layout) round-trips**: series id, data offset and size, every segment's
 time range, every column's name, type, pre-aggregation block and segment entries — for any number
 of columns and segments whose counts agree with the lists (`ChunkMetaWF`), pre-aggregation
@@ -90,27 +102,24 @@ theorem chunk_meta_plain_roundtrip (preAggOn : Bool) (m : ChunkMetaM) (h : Chunk
     unmarshalCMPlain (marshalCMPlain preAggOn m ++ rest) = some (normCM preAggOn m, rest) := by
   have p4 : (256 : Nat) ^ 4 = 2 ^ 32 := by decide
   have p8 : (256 : Nat) ^ 8 = 2 ^ 64 := by decide
-  unfold unmarshalCMPlain
-  rw [if_neg (by omega)]
-  unfold marshalCMPlain
-  simp only [List.append_assoc]
-  rw [readBE_be_lt _ (by rw [p8]; exact h.sid)]
-  simp only
-  rw [readI64_i64]
-  simp only
-  rw [readBE_be_lt _ (by rw [p4]; exact h.size)]
-  simp only
-  rw [readBE_be_lt _ (by rw [p4]; exact h.columnCount)]
-  simp only
-  rw [readBE_be_lt _ (by rw [p4]; exact h.segCount)]
-  simp only
-  rw [← h.ranges, readN_flatMap unmarshalRange marshalRange id m.timeRange _
-    (fun t _ r => unmarshalRange_marshal t r)]
-  simp only [List.map_id]
-  rw [← h.cols, h.ranges, readN_flatMap (unmarshalColPlain m.segCount) (marshalColPlain preAggOn)
+  have hr := readN_flatMap unmarshalRange marshalRange id m.timeRange
+    (m.cols.flatMap (marshalColPlain preAggOn) ++ rest) (fun t _ r => unmarshalRange_marshal t r)
+  have hc := readN_flatMap (unmarshalColPlain m.segCount) (marshalColPlain preAggOn)
     (normCol preAggOn) m.cols rest
-    (fun c hc r => unmarshalColPlain_marshal preAggOn m.segCount h.segs c (h.col c hc) r)]
-  simp only [normCM, h.cols]
+    (fun c hc r => unmarshalColPlain_marshal preAggOn m.segCount h.segs c (h.col c hc) r)
+  rw [h.ranges, List.map_id] at hr
+  rw [h.cols] at hc
+  have := unmarshalCMPlain_of (marshalCMPlain preAggOn m ++ rest) _ _ _ _ _ _ _ m.sid m.size
+    m.columnCount m.segCount m.offset m.timeRange (m.cols.map (normCol preAggOn)) (by omega)
+    (by
+      rw [marshalCMPlain]
+      simp only [List.append_assoc]
+      exact readBE_be_lt _ (by rw [p8]; exact h.sid))
+    (readI64_i64 _ _) (readBE_be_lt _ (by rw [p4]; exact h.size))
+    (readBE_be_lt _ (by rw [p4]; exact h.columnCount)) (readBE_be_lt _ (by rw [p4]; exact h.segCount))
+    hr hc
+  rw [this]
+  rfl
 
 /-- non-vacuity: a two-column, one-segment chunk meta. -/
 def cmExample : ChunkMetaM :=
